@@ -12,7 +12,7 @@ PR = "src/reader/page_reader.c"
 REP_SIZE, DEF_SIZE, PAGE_SIZE, WIDTH_BYTE = 12, 24, 200, 9
 
 
-def trace(P, max_rep=0, max_def=0, want_rep=True, want_def=True, encoding=0, has_dict=True, ptype=None, rep_size=None, def_size=None):
+def trace(P, max_rep=0, max_def=0, want_rep=True, want_def=True, encoding=0, has_dict=True, ptype=None, rep_size=None, def_size=None, width_byte=None, num_values=0, dict_count=0):
     fn = P.fn("carquet_read_data_page_v1", PR)
     ro = sem.field_offsets(P, "carquet_column_reader")
     ho = sem.field_offsets(P, "parquet_data_page_header")
@@ -20,9 +20,12 @@ def trace(P, max_rep=0, max_def=0, want_rep=True, want_def=True, encoding=0, has
     heap0 = {("rd", ro["max_rep_level"]): max_rep, ("rd", ro["max_def_level"]): max_def,
              ("rd", ro["type"]): pt["CARQUET_PHYSICAL_INT32"] if ptype is None else ptype, ("rd", ro["type_length"]): 0,
              ("rd", ro["has_dictionary"]): 1 if has_dict else 0, ("rd", ro["dictionary_data"]): Ptr("dict", 0, 1),
-             ("rd", ro["dictionary_count"]): 0, ("rd", ro["dictionary_offsets"]): 0,
+             ("rd", ro["dictionary_count"]): dict_count, ("rd", ro["dictionary_offsets"]): 0,
              ("rd", ro["indices_buffer"]): Ptr("idx", 0, 4), ("rd", ro["indices_capacity"]): 1000,
-             ("hdr", ho["num_values"]): 0, ("hdr", ho["encoding"]): encoding}
+             ("hdr", ho["num_values"]): num_values, ("hdr", ho["encoding"]): encoding}
+    if num_values:
+        for i in range(num_values):
+            heap0[("idx", 4 * i)] = 1       # what an earlier page of the chunk left in the reused index buffer
     sizes = []
     if max_rep > 0 and want_rep:
         sizes.append(REP_SIZE if rep_size is None else rep_size)
@@ -52,7 +55,7 @@ def trace(P, max_rep=0, max_def=0, want_rep=True, want_def=True, encoding=0, has
     args = [Ptr("rd", 0, 1), Ptr("page", 0, 1), PAGE_SIZE, Ptr("hdr", 0, 1), Ptr("values", 0, 1), 1000,
             Ptr("defl", 0, 2) if want_def else 0, Ptr("repl", 0, 2) if want_rep else 0, Ptr("nread", 0, 8), 0]
     ret, ev, heap = sem.run(P, fn, args, heap0=heap0, hooks=hooks, single=True, max_forks=64, budget=200000,
-                            memory=lambda base, o, size: WIDTH_BYTE if base == "page" else None)
+                            memory=lambda base, o, size: (WIDTH_BYTE if width_byte is None else width_byte) if base == "page" else None)
     return ret, ev, heap.get(("nread", 0))
 
 
